@@ -19,7 +19,11 @@ def run_one(m):
     try:
         repo = os.path.join(tmp, "repo")
         subprocess.run(["rsync", "-a", "--exclude", "target", "--exclude", ".git", REPO + "/", repo + "/"], check=True)
-        for ed in m["edits"]:
+        if m.get("patch"):
+            r0 = subprocess.run(["patch", "-p1", "-s", "-i", os.path.join(V, m["patch"])], cwd=repo, capture_output=True, text=True)
+            if r0.returncode != 0:
+                return dict(id=m["id"], status="STALE", detail="patch does not apply: " + (r0.stdout + r0.stderr)[-200:])
+        for ed in m.get("edits", []):
             p = os.path.join(repo, ed["file"])
             s = open(p, encoding="utf-8").read()
             n = s.count(ed["old"])
